@@ -47,7 +47,7 @@ def model(ctx):
 
 NW = min(16, vlib.NCPU)
 SIZES = [8, 12, 13, 16, 20, 64, 255, 256, 257, 260, 300, 511, 512, 513, 1000, 2047, 2048, 2049, 2052, 3000, 4096, 6000]
-KINDS = ["error", "error", "echo", "flowmod", "hello", "barrier", "error"]
+KINDS = ["error", "error", "echo", "flowmod", "hello", "barrier", "packetin", "error", "packetin"]
 
 
 def rand_frames(rnd, n, big=True):
@@ -61,6 +61,8 @@ def rand_frames(rnd, n, big=True):
             sz = rnd.choice([8, 12, 13, 16, 20, 24, 40, 64, 100])
         if sz == 8:
             k = rnd.choice(["echo", "barrier"])
+        if k == "packetin":
+            sz = rnd.choice([100, 120, 200, 600, 1400])
         out.append([k, sz])
     return out
 
